@@ -14,7 +14,7 @@ import (
 //
 // Recognised method shape (anything else is a loud failure, i.e. a broken tie):
 //
-//	[ if [!]a.IsM16bit()|a.IsX16bit() { panic(...) } ]        width guard
+//	[ if [!]a.IsM16bit()|a.IsX16bit() { panic(...) } ]        width guard (or a call of a helper method whose body is exactly that)
 //	[ a.AssumeREP(p) | a.AssumeSEP(p) ]                         tracker update
 //	[ var d [N]byte ; d[i] = <byte expr> ; d[i], d[j](, d[k]) = imm16(p) | imm24(p) | p, q(, r) ]
 //	a.emitN(ins, [label,] [argsFormat,] d | [N]byte{...})
@@ -216,46 +216,68 @@ func asmRow(l *loader, p *pkgInfo, fd *ast.FuncDecl) (string, bool) {
 		fmt.Sscan(c, &k)
 		return k
 	}
+	// guardOf recognises `if [!]a.IsM16bit()|a.IsX16bit() { panic(...) }`
+	guardOf := func(x *ast.IfStmt) string {
+		cond := x.Cond
+		neg := false
+		if u, ok := cond.(*ast.UnaryExpr); ok && u.Op == token.NOT {
+			neg = true
+			cond = u.X
+		}
+		c, ok := cond.(*ast.CallExpr)
+		if !ok || x.Else != nil || x.Init != nil || len(x.Body.List) != 1 {
+			bad("unrecognised if statement")
+		}
+		es, ok := x.Body.List[0].(*ast.ExprStmt)
+		if !ok {
+			bad("guard body is not a panic")
+		}
+		pc, ok := es.X.(*ast.CallExpr)
+		if !ok || fmt.Sprint(pc.Fun) != "panic" {
+			bad("guard body is not a panic")
+		}
+		s, ok := c.Fun.(*ast.SelectorExpr)
+		if !ok || len(c.Args) != 0 {
+			bad("unrecognised guard")
+		}
+		switch {
+		case s.Sel.Name == "IsM16bit" && !neg:
+			return "AsmGuard.m8" // panics when M is 16-bit: requires 8-bit
+		case s.Sel.Name == "IsM16bit" && neg:
+			return "AsmGuard.m16"
+		case s.Sel.Name == "IsX16bit" && !neg:
+			return "AsmGuard.x8"
+		case s.Sel.Name == "IsX16bit" && neg:
+			return "AsmGuard.x16"
+		}
+		bad("unrecognised guard %s", s.Sel.Name)
+		return ""
+	}
 	for _, st := range stmts[:len(stmts)-1] {
 		switch x := st.(type) {
 		case *ast.IfStmt:
 			// width guard
-			cond := x.Cond
-			neg := false
-			if u, ok := cond.(*ast.UnaryExpr); ok && u.Op == token.NOT {
-				neg = true
-				cond = u.X
-			}
-			c, ok := cond.(*ast.CallExpr)
-			if !ok || x.Else != nil || len(x.Body.List) != 1 {
-				bad("unrecognised if statement")
-			}
-			if es, ok := x.Body.List[0].(*ast.ExprStmt); !ok || !strings.HasPrefix(fmt.Sprint(es.X.(*ast.CallExpr).Fun), "panic") {
-				bad("guard body is not a panic")
-			}
-			s, ok := c.Fun.(*ast.SelectorExpr)
-			if !ok {
-				bad("unrecognised guard")
-			}
-			switch {
-			case s.Sel.Name == "IsM16bit" && !neg:
-				guard = "AsmGuard.m8" // panics when M is 16-bit: requires 8-bit
-			case s.Sel.Name == "IsM16bit" && neg:
-				guard = "AsmGuard.m16"
-			case s.Sel.Name == "IsX16bit" && !neg:
-				guard = "AsmGuard.x8"
-			case s.Sel.Name == "IsX16bit" && neg:
-				guard = "AsmGuard.x16"
-			default:
-				bad("unrecognised guard %s", s.Sel.Name)
-			}
+			guard = guardOf(x)
 		case *ast.ExprStmt:
 			c, ok := x.X.(*ast.CallExpr)
 			if !ok {
 				bad("unrecognised statement")
 			}
 			s, ok := c.Fun.(*ast.SelectorExpr)
-			if !ok || len(c.Args) != 1 {
+			if !ok {
+				bad("unrecognised call")
+			}
+			if s.Sel.Name != "AssumeREP" && s.Sel.Name != "AssumeSEP" {
+				// a guard factored into a helper method of Emitter: its body must be exactly one width guard
+				if hd := findFunc(p, "Emitter", s.Sel.Name); hd != nil && hd.Body != nil && len(hd.Body.List) == 1 {
+					if hif, ok := hd.Body.List[0].(*ast.IfStmt); ok {
+						guard = guardOf(hif)
+						continue
+					}
+				}
+				bad("unrecognised call %s", s.Sel.Name)
+			}
+			if len(c.Args) != 1 {
 				bad("unrecognised call")
 			}
 			id, ok := c.Args[0].(*ast.Ident)
